@@ -191,6 +191,34 @@ CLAIMED.update({
     },
 })
 
+CLAIMED.update({
+    "C15": {
+        "text": "Machine-checked proof that the model of MessageAny.serialize never fails for lack of room whenever the "
+                "header leaves three bits (any state-init, any body cell: parts are moved into references), and that the "
+                "cell decodes under an independent reading of block.tlb (Message/CommonMsgInfo/StateInit/CurrencyCollection) "
+                "to the same logical message; stand-alone StateInit, CurrencyCollection (with extra currencies) and "
+                "HASH_UPDATE round trips. The library's parser (traced decision tree), the independent decoder and the "
+                "code agree on 1700 generated messages incl. alternative placements.",
+        "design_ref": "DESIGN.md 4.15",
+        "technique": "Coq proof: bit/reference budget arithmetic over the placement branches, composition of the C06/C09 "
+                     "primitive round trips; correspondence by extracted OCaml model and regenerated decision trees",
+        "note": "5 theorems closed under the global context. Wallet/NFT data wrappers are covered by correspondence only.",
+    },
+    "C19": {
+        "text": "PARTIAL by nature (cost semantics, not wall-clock). Machine-checked proof that the traversal used by "
+                "Cell.order visits exactly 1 + (sum of references of the distinct cells): a shared sub-DAG is expanded "
+                "once however many paths lead to it (linear in cells + references); that the BoC parser model consumes at "
+                "least two bytes per parsed cell and an accepted header has room for everything it announces, so count "
+                "fields cannot drive the work. Measured on the implementation: hash operations per order()/to_boc(), cell "
+                "parses and TL deserialisations per input byte, on maximal-sharing DAGs and adversarial count fields.",
+        "design_ref": "DESIGN.md 4.19",
+        "technique": "Coq proof of an exact visit-count identity by nested induction on the instrumented traversal; counting "
+                     "lemmas for the parser model; call-count measurements on the implementation",
+        "note": "5 theorems closed under the global context. The iterative Python loop is modelled by its recursive "
+                "formulation (same order, visits counted per call); library primitives are unit cost.",
+    },
+})
+
 PENDING_REASON = "check not built yet in this round (design in DESIGN.md section 4); not claimed until it exists"
 
 
